@@ -13,14 +13,14 @@ open Node Raft Raft.CC RaftProps.C02 RaftProps.C05 Snap
 variable {cfg : JointConfig} {c0 : Nat} {h : List Sys}
 
 /-- two uncompacted logs of the history that hold entries of the same term at `q` are equal up to `q` -/
-theorem full_eq_below (H : Hyp2 cfg c0 h) {g1 g2 F1 F2 : LLog}
+theorem full_eq_below (H : Hyp2w cfg c0 h) {g1 g2 F1 F2 : LLog}
     (h1 : Full (HistChain h) c0 g1 F1) (h2 : Full (HistChain h) c0 g2 F2) {q : Nat} {e1 e2 : Entry}
     (he1 : F1.entryAt q = some e1) (he2 : F2.entryAt q = some e2) (ht : e1.term = e2.term) :
     ∀ k, k ≤ q → F1.entryAt k = F2.entryAt k :=
   eq_below (agree_of_derived (hist_agree H) h1.der h2.der) (h1.snap.trans h2.snap.symm) he1 he2 ht
 
 /-- the ghost logs of two nodes of the history -/
-theorem flogs_eq_below (H : Hyp2 cfg c0 h) {n n' : Nat} {s s' : Sys} (hn : h[n]? = some s)
+theorem flogs_eq_below (H : Hyp2w cfg c0 h) {n n' : Nat} {s s' : Sys} (hn : h[n]? = some s)
     (hn' : h[n']? = some s') {i j : Nat} {st st' : NState} (hi : s.node i = some st)
     (hj : s'.node j = some st') {q : Nat} {e1 e2 : Entry}
     (h1 : (FL h c0 st).entryAt q = some e1) (h2 : (FL h c0 st').entryAt q = some e2)
@@ -30,7 +30,7 @@ theorem flogs_eq_below (H : Hyp2 cfg c0 h) {n n' : Nat} {s s' : Sys} (hn : h[n]?
     h1 h2 ht
 
 /-- **the ghost log of a leader only grows** while it leads its term -/
-theorem leader_ghost_ext (H : Hyp2 cfg c0 h) (i : Nat) :
+theorem leader_ghost_ext (H : Hyp2w cfg c0 h) (i : Nat) :
     ∀ (d n : Nat) (s s' : Sys) (st st' : NState), h[n]? = some s → h[n + d]? = some s' →
       (∀ m a b, n ≤ m → m < n + d → h[m]? = some a → h[m + 1]? = some b → ¬ IsRestart i a b) →
       s.node i = some st → s'.node i = some st' →
@@ -92,7 +92,7 @@ theorem leader_ghost_ext (H : Hyp2 cfg c0 h) (i : Nat) :
 
 /-- the ghost logs of the leader of term `t` at two points of the history hold the same entry at every
 index both reach -/
-theorem leader_flogs_eq (H : Hyp2 cfg c0 h) {n n' : Nat} {s s' : Sys} (hn : h[n]? = some s)
+theorem leader_flogs_eq (H : Hyp2w cfg c0 h) {n n' : Nat} {s s' : Sys} (hn : h[n]? = some s)
     (hn' : h[n']? = some s') {l l' t : Nat} {st st' : NState} (hk : s.node l = some st)
     (hk' : s'.node l' = some st') (hs : st.raft.state = .leader) (hs' : st'.raft.state = .leader)
     (ht : st.raft.term = t) (ht' : st'.raft.term = t) {k : Nat}
@@ -113,12 +113,12 @@ theorem leader_flogs_eq (H : Hyp2 cfg c0 h) {n n' : Nat} {s s' : Sys} (hn : h[n]
       (ht.trans ht'.symm)).2 k h2
 
 /-- the common snapshot point is not beyond the snapshot point of any node -/
-theorem c0_le_snap (H : Hyp2 cfg c0 h) {n : Nat} {s : Sys} (hn : h[n]? = some s) {v : Nat}
+theorem c0_le_snap (H : Hyp2w cfg c0 h) {n : Nat} {s : Sys} (hn : h[n]? = some s) {v : Nat}
     {st : NState} (hv : s.node v = some st) : c0 ≤ st.raft.raftLog.abs.snapIdx :=
   ((ghost_inv H n s hn).node v st hv).log.le
 
 /-- what a commit event gives: the committing leader's state after the step -/
-theorem Ev.facts (H : Hyp2 cfg c0 h) {E : Ev} (hE : E.ok h) :
+theorem Ev.facts (H : Hyp2w cfg c0 h) {E : Ev} (hE : E.ok h) :
     ∃ a b sta stb, h[E.nE]? = some a ∧ h[E.nE + 1]? = some b ∧ a.node E.l = some sta ∧
       b.node E.l = some stb ∧ stb.raft.state = .leader ∧ stb.raft.term = E.t ∧
       E.c = stb.raft.raftLog.committed ∧ E.gE = stb.raft.raftLog.abs ∧
